@@ -959,11 +959,17 @@ fn nsc() -> usize {
     spools().scalars.len()
 }
 fn rk(r: &mut Rng) -> usize {
-    // bias towards the structured head of the scalar pool
-    if r.chance(1, 4) {
-        r.below(10)
-    } else {
-        r.below(nsc())
+    // a fifth: the structured head of the scalar pool; two fifths: the hand-made scalars; two fifths:
+    // the generated structured ones that follow them
+    let nh = crate::spool::n_hand();
+    if std::env::var_os("PP_SIM_ONLY_GENERATED_SCALARS").is_some() {
+        // experiment knob (DESIGN 6.3): would the generated scalars alone have found a seeded change?
+        return nh + r.below(nsc() - nh);
+    }
+    match r.below(5) {
+        0 => r.below(10),
+        1 | 2 => r.below(nh),
+        _ => nh + r.below(nsc() - nh),
     }
 }
 fn ctxsel(r: &mut Rng, c: &GenCfg) -> usize {
